@@ -226,7 +226,7 @@ def import_geogram_ascii(path):
     return outmesh
 
 def export_attribute(f, size, container, attr, attr_name):
-    f.write(f"[ATTR]\n\"{container}\"\n\"{attr_name}\"\n\"{attr.type.to_string()}\"\n{attr.type.byte_size()}\n{attr.elemsize}\n")
+    f.write(f"[ATTR]\n\"{container}\"\n\"{attr_name}\"\n\"{attr.type.to_string()}\"\n{attr.type.byte_size() or 0}\n{attr.elemsize}\n")
     for i in range(size):
         if attr.elemsize==1:
             if attr.type==Attribute.Type.Bool: # should be written as 0 or 1 and not as "true" or "false"
@@ -327,9 +327,11 @@ def export_geogram_ascii(mesh : RawMeshData, path):
             # Cell faces
             n_cell_faces = sum([len(c) for c in mesh.cells])
             cell_adj = mesh.cell_faces.get_attribute("adjacent_cell")
-            f.write("[ATTR]\n\"GEO::Mesh::cell_corners\"\n\"GEO::Mesh::cell_faces::adjacent_cell\"\n\"index_t\"\n4\n1\n")
-            for x in cell_adj:
-                f.write(f"{x}\n")
+            f.write("[ATTS]\n\"GEO::Mesh::cell_facets\"\n{}\n".format(n_cell_faces))
+            f.write("[ATTR]\n\"GEO::Mesh::cell_facets\"\n\"GEO::Mesh::cell_facets::adjacent_cell\"\n\"index_t\"\n4\n1\n")
+            for iC,cell in enumerate(mesh.cells):
+                for iF in range(len(cell)):
+                    f.write(f"{cell_adj[(iC,iF)]}\n") # (the attribute is keyed by (cell, local face))
 
             for attr_key in mesh.cell_faces.attributes:
                 if attr_key=="adjacent_cell" : continue
